@@ -80,6 +80,22 @@ def families(tier):
         out.append(dict(prop='C10', family='c10.timeouts_slow_callbacks', id=f'c10/slow-{shape}-p{tp}-c{tc}-k{k}', cfg=dict(cfg, busy_timers=1, cap=30000 if deep else 2500),
                         params=dict(shape=shape, tp=tp, tc=tc, slow=True),
                         scn=dict(buses={b: {} for b in names}, order=names, handlers=hs, main=main, actors=[], forwards=[], settle=2.0)))
+    # a forwarded event whose handler on the forwarded-to bus overruns; also as the awaited child of a handler with its own deadline
+    for place, tb, fwd_first in itertools.product(('root', 'child_aw'), (0.5, 1.0), (False, True)):
+        if place == 'root':
+            hs = [dict(bus='A', pat='P', name='hpA', prog=[('ret', 1)]), dict(bus='B', pat='P', name='hpB', prog=[('pause',), ('pause',)]), dict(bus='B', pat='P', name='hpB_next', prog=[('ret', 2)])]
+            main = [('disp', 'A', 'P', 'ff', {'timeout': tb}), ('pause',), ('disp', 'A', 'X', 'ff'), ('disp', 'B', 'X2', 'ff'), ('idle', 'A'), ('idle', 'B')]
+            params = dict(shape='fwd_root', tp=tb, tc=None)
+        else:
+            hs = [dict(bus='A', pat='P', name='hp', prog=[('disp', 'A', 'C', 'await', {'timeout': tb}), ('pause',)]), dict(bus='A', pat='C', name='hcA', prog=[('ret', 1)]),
+                  dict(bus='B', pat='C', name='hcB', prog=[('pause',), ('pause',)]), dict(bus='B', pat='P', name='hpB', prog=[('ret', 0)])]
+            main = [('disp', 'A', 'P', 'ff', {'timeout': 1.5 - tb}), ('pause',), ('disp', 'A', 'X', 'ff'), ('disp', 'B', 'X2', 'ff'), ('idle', 'A'), ('idle', 'B')]
+            params = dict(shape='fwd_child', tp=1.5 - tb, tc=tb)
+        for b in 'AB':
+            hs.append(dict(bus=b, pat='X', name='hs' + b, prog=[('ret', 0)]))
+        for order in (['A', 'B'], ['B', 'A']):
+            out.append(dict(prop='C10', family='c10.timeouts_forwarded', id=f'c10/fwd-{place}-t{tb}-f{int(fwd_first)}-o{"".join(order)}', cfg=cfg, params=params,
+                            scn=dict(buses={'A': {}, 'B': {}}, order=order, handlers=hs, main=main, actors=[], forwards=[('A', 'B')], fwd_first=fwd_first, settle=2.0)))
     # parallel_handlers: the awaited child has two concurrently running handlers when the parent's deadline lands
     for cb, par_a, par_b, tp, tc in itertools.product('AB', (False, True), (False, True), (0.5,), (None, 1.0)):
         if cb == 'A' and not par_a:
